@@ -183,15 +183,25 @@ def run(chk):
             continue
         seen.add(key)
         r1.fail("murmur3_32:unmasked-shift:%s" % key, "`%s` shifts right a value that can exceed 32 bits (width %s): bits above 2**32, which uint32_t arithmetic discards, leak into the result" % (key, val.w), fn=fn, node=node)
-    n_shr = sum(1 for n in ast.walk(fn.node) if isinstance(n, ast.BinOp) and isinstance(n.op, ast.RShift))
+    # the function together with the module-level helpers it calls (evaluated in line by the term evaluator)
+    scope, todo = [], [fn]
+    while todo:
+        g = todo.pop()
+        if g in scope:
+            continue
+        scope.append(g)
+        for n in ast.walk(g.node):
+            if isinstance(n, ast.Call) and isinstance(n.func, ast.Name) and n.func.id in fn.module.functions:
+                todo.append(fn.module.functions[n.func.id])
+    n_shr = sum(1 for g in scope for n in ast.walk(g.node) if isinstance(n, ast.BinOp) and isinstance(n.op, ast.RShift))
     if not seen:
         r1.ok("all %d right shifts operate on values masked to 32 bits" % n_shr)
-    r1.floor("right shifts", n_shr, 5)
+    r1.floor("right shifts", n_shr, 3)
     # ---- purity
     allowed = {"len", "ord", "range", ".encode", ".decode", "isinstance", "int"}
     extra = sorted(calls - allowed)
     r2.expect(not extra, "calls are limited to len/ord/range", "murmur3_32:impure-call", "murmur3_32 calls %s" % extra, fn=fn, node=fn.node)
-    bad = [n for n in ast.walk(fn.node) if isinstance(n, (ast.Global, ast.Nonlocal, ast.Attribute, ast.Yield, ast.Lambda))]
+    bad = [n for g in scope for n in ast.walk(g.node) if isinstance(n, (ast.Global, ast.Nonlocal, ast.Attribute, ast.Yield, ast.Lambda))]
     bad = [n for n in bad if not (isinstance(n, ast.Attribute) and n.attr in ("encode", "decode"))]
     r2.expect(not bad, "no globals / attribute access", "murmur3_32:non-local-state", "murmur3_32 uses `%s`" % (node_src(bad[0]) if bad else ""), fn=fn, node=bad[0] if bad else fn.node)
     chk.extra["programs"] = programs
